@@ -310,8 +310,30 @@ pub fn related_blocks(rng: &mut Prng, n: usize, bs: usize) -> Vec<u8> {
         return Vec::new();
     }
     let base = if rng.chance(1, 4) { special_bytes(rng, bs) } else { rng.bytes(bs) };
-    let mode = rng.below(6);
+    let mode = rng.below(8);
     let mut out = Vec::with_capacity(n * bs);
+    if mode >= 6 {
+        // relations *within groups* of neighbouring blocks, a different base per group: runs of 2, 3 or 4 blocks
+        // (or alternating A, B, A, B) that share a prefix, a suffix or one half of their bytes with their group's
+        // base while the groups differ from each other (a batch path that compares or merges neighbouring blocks
+        // sees equal parts in some neighbours and not in others)
+        let g = *rng.pick(&[2usize, 2, 3, 4]);
+        let share = *rng.pick(&[bs / 2, bs / 2, bs - 1, (bs / 4).max(1), bs]);
+        let suffix = rng.chance(1, 3);
+        let alternating = mode == 7;
+        let mut bases: Vec<Vec<u8>> = vec![base.clone(), rng.bytes(bs)];
+        for i in 0..n {
+            let gi = if alternating { i % 2 } else { i / g };
+            while bases.len() <= gi {
+                bases.push(rng.bytes(bs));
+            }
+            let mut b = rng.bytes(bs);
+            let (lo, hi) = if suffix { (bs - share, bs) } else { (0, share) };
+            b[lo..hi].copy_from_slice(&bases[gi][lo..hi]);
+            out.extend_from_slice(&b);
+        }
+        return out;
+    }
     for i in 0..n {
         let mut b = base.clone();
         match mode {
